@@ -1374,6 +1374,69 @@ fn run_lz(c: &Case) -> Obs {
         ("seq", g(|| hex(&rr().sequence().iter().collect::<Vec<u8>>()))),
         ("qual", g(|| hex(rr().quality_scores().as_bytes()))),
         ("data", g(|| hex(rr().data().as_bytes()))),
+        (
+            "seq-get",
+            g(|| {
+                let sq = rr().sequence();
+                let n = sq.len() as i64;
+                let probes: Vec<i64> = [0, 1, 2, n - 1, n, n + 1].into_iter().filter(|i| *i >= 0).collect();
+                let gets: Vec<String> = probes
+                    .iter()
+                    .map(|i| {
+                        let i = *i as usize;
+                        match guarded(std::panic::AssertUnwindSafe(|| rr().sequence().get(i))) {
+                            Outcome::Done(Some(b)) => b.to_string(),
+                            Outcome::Done(None) => "-".to_string(),
+                            Outcome::Panicked(_) => "P".to_string(),
+                        }
+                    })
+                    .collect();
+                format!("{n}:{}", gets.join(","))
+            }),
+        ),
+        ("qual-iter", g(|| hex(&rr().quality_scores().iter().collect::<Vec<u8>>()))),
+        (
+            "data-iter",
+            g(|| {
+                // Data::iter: the fields before the first error; Data::get of every tag seen, CG, ZZ
+                let data = rr().data();
+                let mut fs: Vec<([u8; 2], Val)> = Vec::new();
+                let mut err = false;
+                for f in data.iter() {
+                    match f {
+                        Ok((t, v)) => {
+                            let b: &[u8; 2] = t.as_ref();
+                            match Value::try_from(v) {
+                                Ok(v) => fs.push((*b, val_from_noodles(&v))),
+                                Err(_) => {
+                                    err = true;
+                                    break;
+                                }
+                            }
+                        }
+                        Err(_) => {
+                            err = true;
+                            break;
+                        }
+                    }
+                }
+                let mut tags: Vec<[u8; 2]> = fs.iter().map(|(t, _)| *t).collect();
+                tags.push(CG);
+                tags.push(*b"ZZ");
+                let gets: Vec<String> = tags
+                    .iter()
+                    .map(|t| match data.get(t) {
+                        None => "-".to_string(),
+                        Some(Err(_)) => "Err".to_string(),
+                        Some(Ok(v)) => match Value::try_from(v) {
+                            Ok(v) => fmt_val(&val_from_noodles(&v)),
+                            Err(_) => "Err".to_string(),
+                        },
+                    })
+                    .collect();
+                format!("{}{} {}", fmt_data(&fs), if err { "!Err" } else { "" }, gets.join(","))
+            }),
+        ),
     ];
     let panicked: Vec<&str> = fields.iter().filter(|(_, v)| v.is_none()).map(|(n, _)| *n).collect();
     let obs = short_or_digest(fields.iter().map(|(_, v)| p(v.clone())).collect::<Vec<_>>().join(" "));
